@@ -67,8 +67,8 @@ def write_doc(levels, spell, place, marks, zz, repeat=False):
         if marks[i] in PLAIN:
             plain = PLAIN[marks[i]].format(w=w)
         heads.append((lv, plain))
-        if spell[i] == 'setext' and lv <= 2:
-            h = [title, '===' if lv == 1 else '---']
+        if spell[i] in ('setext', 'setext-indented') and lv <= 2:
+            h = [title, ('   ' if spell[i] == 'setext-indented' else '') + ('===' if lv == 1 else '---')]
         else:
             h = ['#' * lv + ' ' + title]
         if place[i] == 'quote':
@@ -138,6 +138,7 @@ def configs_for(levels):
         spells.append(['setext'] * n)
         if n >= 2:
             spells.append(['setext' if i % 2 else 'atx' for i in range(n)])
+        spells.append(['setext-indented'] * n)      # underline indented by three spaces
     if n <= 3:
         places = list(itertools.product(('top', 'quote', 'item'), repeat=n))
     else:
@@ -150,7 +151,7 @@ def configs_for(levels):
               tuple((i + 10) % len(MARKUP) for i in range(n))]
     for spell in spells:
         for place in places:
-            if any(s == 'setext' and p == 'quote' and l <= 2 for s, p, l in zip(spell, place, levels)):
+            if any(s in ('setext', 'setext-indented') and p == 'quote' and l <= 2 for s, p, l in zip(spell, place, levels)):
                 continue
             for zz in zzs:
                 for marks in markss:
